@@ -163,3 +163,44 @@ Definition announces (r : request) (p : protocol) : Prop := hd [] (x_protocol r)
    is assumed of them: within 1 of the truncated quotient, exact on exact multiples. *)
 Definition float_quot_ok (fq : Z -> Z -> Z) : Prop :=
   forall t u, 0 < u -> Z.abs (fq t u - Z.quot t u) <= 1 /\ (Z.rem t u = 0 -> fq t u = Z.quot t u).
+
+(* ---------- 5. what the runner tells the reference server about each request ---------- *)
+(* From the property text: a request carries "the runner's expectation headers", and they describe the set-up
+   of the test that request belongs to.  A batch of test cases shares one server instance; HTTP version and
+   protocol are the instance's, codec, compression, stream type and GET/POST are the case's own; TLS and the
+   client certificate are as the connection will be (a certificate named by the server; client credentials in
+   use).  Nothing here says how the runner builds the headers or when. *)
+Definition connection_tls (i : rinst) : tlsmode :=
+  match ri_pem i, ri_creds i && ri_use_certs i with
+  | false, _ => Plain
+  | true, false => Tls
+  | true, true => TlsCert
+  end.
+Definition case_axes (i : rinst) (c : rcase) : axes :=
+  {| a_version := rc_version c; a_get := rc_get c; a_protocol := rc_protocol c; a_codec := rc_codec c;
+     a_compression := rc_compression c; a_tls := connection_tls i |}.
+
+(* a header list, read as it arrives (names case-insensitive, values of equally named headers concatenated),
+   names the test and describes set-up e: one value each, the enum numbers in decimal *)
+Definition describes (hs : list header) (name : bytes) (e : axes) : Prop :=
+  values_of (bs "x-test-case-name") hs = [name] /\
+  values_of (bs "x-expect-http-version") hs = [dec1 (version_num (a_version e))] /\
+  values_of (bs "x-expect-http-method") hs = [method_name (a_get e)] /\
+  values_of (bs "x-expect-protocol") hs = [dec1 (protocol_num (a_protocol e))] /\
+  values_of (bs "x-expect-codec") hs = [dec1 (codec_num (a_codec e))] /\
+  values_of (bs "x-expect-compression") hs = [dec1 (compression_num (a_compression e))] /\
+  values_of (bs "x-expect-tls") hs = [if tls_on (a_tls e) then bs "true" else bs "false"] /\
+  values_of (bs "x-expect-client-cert") hs = match a_tls e with TlsCert => [c12_client_cert_name] | _ => [] end.
+
+(* the fragment: a test's own headers stay out of the reserved names; client certificates are only used on TLS
+   instances; GET is a thing of Connect unary calls *)
+Definition reserved (n : bytes) : Prop :=
+  lower n = bs "x-test-case-name" \/ has_prefix (bs "x-expect-") (lower n) = true.
+Definition own_headers_ok (c : rcase) : Prop :=
+  (forall h, In h (rc_headers c) -> ~ reserved (fst h)) /\
+  (forall raw h, rc_raw c = Some raw -> In h raw -> ~ reserved (fst h)).
+Definition certs_need_tls (i : rinst) : Prop := ri_use_certs i = true -> ri_use_tls i = true.
+(* (the reference client leaves a GET uncompressed unless its URL grows too long, so the suites run GET cases
+   under identity only: for GET the reference client is "the correct client" of the matrix only there) *)
+Definition get_ok (c : rcase) : Prop :=
+  rc_get c = true -> rc_protocol c = PConnect /\ rc_stream c = StUnary /\ rc_compression c = ZIdentity.
